@@ -518,6 +518,10 @@ func renameSet(ss []*Service, tren, fren map[string]string) {
 // ConflictKinds lists the conflict-introducing edits of C05.
 var ConflictKinds = []string{"dup_root_field", "kind_clash", "node_mismatch", "node_field_overlap", "partial_overlap", "field_signature", "union_members"}
 
+// WrapperConflictKinds: field-signature conflicts that differ in list shape only (applied with their own random
+// stream by the driver, so the cases of ConflictKinds stay as they were).
+var WrapperConflictKinds = []string{"field_list_wrapper", "field_inner_nullability", "arg_list_wrapper"}
+
 // Conflict applies one conflict-introducing edit to a copy of a mergeable set; ok=false when the set offers no site for it.
 func Conflict(rng *rand.Rand, base []*Service, kind string) (out []*Service, ok bool) {
 	ss := CloneSet(base)
@@ -603,6 +607,19 @@ func Conflict(rng *rand.Rand, base []*Service, kind string) (out []*Service, ok 
 		if rng.Intn(2) == 0 {
 			db.Fields = []Field{{Name: "x", Type: "String"}}
 		} else {
+			db.Fields = []Field{{Name: "x", Type: "Int", Args: []Arg{{Name: "k", Type: "Int"}}}}
+		}
+	case "field_list_wrapper", "field_inner_nullability", "arg_list_wrapper":
+		// the same innermost type and outer nullability; only the list shape differs
+		da := a.ensure("OBJECT", "Sig")
+		db := b.ensure("OBJECT", "Sig")
+		switch kind {
+		case "field_list_wrapper":
+			da.Fields, db.Fields = []Field{{Name: "x", Type: "Int"}}, []Field{{Name: "x", Type: "[Int]"}}
+		case "field_inner_nullability":
+			da.Fields, db.Fields = []Field{{Name: "x", Type: "[Int!]"}}, []Field{{Name: "x", Type: "[Int]"}}
+		default:
+			da.Fields = []Field{{Name: "x", Type: "Int", Args: []Arg{{Name: "k", Type: "[Int!]"}}}}
 			db.Fields = []Field{{Name: "x", Type: "Int", Args: []Arg{{Name: "k", Type: "Int"}}}}
 		}
 	case "union_members":
